@@ -52,6 +52,8 @@ fn start_envs() -> Vec<PlainEnv> {
         PlainEnv::new(),
         vars.iter().map(|v| (v.as_bytes().to_vec(), format!("/orig/{v}").into_bytes())).collect(),
         vars.iter().map(|v| (v.as_bytes().to_vec(), Vec::new())).collect(),
+        // values that begin and end with the separator (empty list elements = current directory)
+        vars.iter().map(|v| (v.as_bytes().to_vec(), format!(":/orig/{v}:").into_bytes())).collect(),
     ]
 }
 
@@ -317,8 +319,8 @@ pub fn run(args: &Args) {
     rep.cov("fixpoint_cycles_run", fix);
     rep.cov("distinct_nontrivial", outcomes.len() as u64);
     rep.cov("distinct_outcomes", outcomes.len() as u64);
-    rep.cov("rule", "all 6^4 assignments of {absent, dir, file, symlink->dir, symlink->file, dangling symlink} to bin/lib/include/pkgconfig, plus two kinds that fail to resolve with ELOOP / ENOTDIR (quick: all 4^4 over {absent, dir, ELOOP, ENOTDIR}; thorough: all 8^4) x 10 explicit envs (two with a non-empty per-process directory, three whose value is exactly the layer's own bin/lib path) on the same variables x 3 start envs (unset, set, empty) x 4 query scopes, each read by the real read_from_layer_dir and compared with the reference; per assignment x explicit env, read->write cycles by 6 routes (LayerEnv, cached_layer keep+read_env/write_env, handle_layer Keep, handle_layer Update with the default impl, the last two also on a restored layer whose toml has no [types]) must leave the env directories unchanged; layer directory spellings: all 3^4 assignments over {absent, dir, link->dir} x 7 spellings of the layer path (non-UTF-8 component, trailing slash, ./.. segments, symlinked parent, space/colon/'=', a \\\\?\\ component, U+FFFD/non-ASCII) x 3 scopes x 3 start envs: the implicit value is the handed-over path joined with the sub-directory, byte for byte. distinct_nontrivial = distinct (scope, resulting environment) outcomes with the scratch path normalised");
-    rep.cov("bound", json!({"assignments": assigns.len(), "explicit_envs": 10, "start_envs": 3, "scopes": 4, "cycles": cycles, "routes": 6}));
+    rep.cov("rule", "all 6^4 assignments of {absent, dir, file, symlink->dir, symlink->file, dangling symlink} to bin/lib/include/pkgconfig, plus two kinds that fail to resolve with ELOOP / ENOTDIR (quick: all 4^4 over {absent, dir, ELOOP, ENOTDIR}; thorough: all 8^4) x 10 explicit envs (two with a non-empty per-process directory, three whose value is exactly the layer's own bin/lib path) on the same variables x 4 start envs (unset, set, empty, beginning and ending with the separator) x 4 query scopes, each read by the real read_from_layer_dir and compared with the reference; per assignment x explicit env, read->write cycles by 6 routes (LayerEnv, cached_layer keep+read_env/write_env, handle_layer Keep, handle_layer Update with the default impl, the last two also on a restored layer whose toml has no [types]) must leave the env directories unchanged; layer directory spellings: all 3^4 assignments over {absent, dir, link->dir} x 7 spellings of the layer path (non-UTF-8 component, trailing slash, ./.. segments, symlinked parent, space/colon/'=', a \\\\?\\ component, U+FFFD/non-ASCII) x 3 scopes x 4 start envs: the implicit value is the handed-over path joined with the sub-directory, byte for byte. distinct_nontrivial = distinct (scope, resulting environment) outcomes with the scratch path normalised");
+    rep.cov("bound", json!({"assignments": assigns.len(), "explicit_envs": 10, "start_envs": 4, "scopes": 4, "cycles": cycles, "routes": 6}));
     rep.cov("exhaustive", true);
     rep.sample(json!({"assignment": {"bin": "link->dir", "lib": "file", "include": "dir", "pkgconfig": "dangling"}, "explicit": "PATH append+delim in build", "scope": "Build", "start": "all five variables set"}));
     rep.sample(json!({"fixpoint": "bin=dir lib=dir include=absent pkgconfig=absent; handle_layer Keep x3; env dirs must stay as written"}));
